@@ -25,6 +25,10 @@ type shCfg struct {
 	// Other: a second, different image that is parsed before the history starts and stays alive beside it; what the
 	// history does to the first image must not show on the second one.
 	Other *PESpec `json:"other,omitempty"`
+	// Reader: what the caller hands to Parse. "" = the simulated medium; "bytes" = a *bytes.Reader; "sniffed" = a
+	// *bytes.Reader the caller has already read the first bytes from (to look at the MZ magic); "section" = an
+	// io.SectionReader over the image embedded at an offset inside a larger file.
+	Reader string `json:"reader,omitempty"`
 }
 
 type shForeign struct {
@@ -81,6 +85,7 @@ func (e *signhistEngine) Gen(seed uint64, tier string, run int) *Trace {
 			c.Other.Trailing = or.Range(1, 7) // a size that is not a multiple of 8 more often
 		}
 	}
+	c.Reader = Pick(r.Fork("reader"), []string{"", "", "", "bytes", "sniffed", "section"})
 	// swarm: key subset of this run (keeps collisions and repeats frequent)
 	var keys []int
 	switch r.Intn(8) {
@@ -248,7 +253,22 @@ func shExec(c shCfg, ops []shOp, x *X) {
 	if len(ents0) > 0 {
 		x.Probe("resign_existing_table")
 	}
-	bin, err := authenticode.Parse(&SimReader{data: orig})
+	var medium io.ReaderAt = &SimReader{data: orig}
+	switch c.Reader {
+	case "bytes":
+		medium = bytes.NewReader(orig)
+	case "sniffed":
+		br := bytes.NewReader(orig)
+		var magic [2]byte
+		br.Read(magic[:]) // positional reads do not care where the sequential cursor is
+		medium = br
+		x.Probe("reader_already_read_from")
+	case "section":
+		big := append(append(bytes.Repeat([]byte{0xCC}, 4096+len(orig)%97), orig...), bytes.Repeat([]byte{0xDD}, 333)...)
+		medium = io.NewSectionReader(bytes.NewReader(big), int64(4096+len(orig)%97), int64(len(orig)))
+		x.Probe("image_inside_a_larger_file")
+	}
+	bin, err := authenticode.Parse(medium)
 	if err != nil {
 		x.Fail("signhist.parse_well_formed", -1, "Parse", "well-formed image rejected: %v", err)
 		return
